@@ -326,8 +326,16 @@ struct ChunkFooter {
 /// For the canonical empty chunk to be `static`, its type must be `Sync`, which
 /// is the purpose of this wrapper type. This is safe because the empty chunk is
 /// immutable and never actually modified.
-#[repr(transparent)]
+///
+/// It is aligned to `CHUNK_ALIGN`, the largest supported minimum alignment,
+/// because its address serves as the bump pointer of every `Bump` that has not
+/// allocated a chunk yet, and bump pointers must be aligned to `MIN_ALIGN`.
+#[repr(C, align(16))]
 struct EmptyChunkFooter(ChunkFooter);
+
+const _EMPTY_CHUNK_ALIGN_ASSERTION: () = {
+    assert!(mem::align_of::<EmptyChunkFooter>() >= CHUNK_ALIGN);
+};
 
 unsafe impl Sync for EmptyChunkFooter {}
 
